@@ -502,6 +502,7 @@ func replayFile(t *testing.T, r *mc.Run, f string) {
 		}
 		synctest.Test(t, func(t *testing.T) {
 			m := newModel(c)
+			m.prefill()
 			for i, e := range rp.Path {
 				fail := m.Apply(e)
 				fmt.Printf("%2d %-16s now=%v -> %q\n", i, m.alpha[e], time.Now().UnixNano()%int64(10*m.W()), fail)
